@@ -97,7 +97,7 @@ def splitOp (body : String) : Option (String × String) :=
 /-- value of `key=` among the implementation's observation lines -/
 def obsField (impl : Array String) (key : String) : Option String :=
   impl.toList.findSome? fun l =>
-    if l.startsWith ("D " ++ key ++ "=") then some (l.drop (key.length + 3)).toString else none
+    if l.startsWith ("D " ++ key ++ "=") || l.startsWith ("F " ++ key ++ "=") then some (l.drop (key.length + 3)).toString else none
 
 structure Abs where
   g : Array (List String) := #[]      -- annotation words per graph line
@@ -338,12 +338,15 @@ def handle (c : Case) : CaseOut := Id.run do
       modelBytes := some (gb, cb)
       out := out.push "D rc=0"
       out := out.push ("D gbytes=" ++ toHex gb)
-      out := out.push ("D cbytes=" ++ toHex cb)
+      -- METIS / DDSG coordinates are scaled through floating point: the property fixes the stored values only to
+      -- within one millionth of a degree, so these bytes (and their read-back) are free; the judge checks tolerance
+      let ccls := if fmt matches .dimacs then "D" else "F"
+      out := out.push (ccls ++ " cbytes=" ++ toHex cb)
       let dg := implG.getD gb
       let dc := implC.getD cb
       out := out.push ("D tedges=" ++ match decodeTrivialEdges dg with | some es => showTrivial es | none => "ERR")
       out := out.push ("D wedges=" ++ match decodeEdges dg with | some (es, _) => showEdges es | none => "ERR")
-      out := out.push ("D coords=" ++ match decodeCoords dc with | some (cs, _) => showCoords cs | none => "ERR")
+      out := out.push (ccls ++ " coords=" ++ match decodeCoords dc with | some (cs, _) => showCoords cs | none => "ERR")
   | _, _ => outside := true
   -- ---- judge (annotations + implementation lines only)
   let gA := abs.g.toList
